@@ -53,28 +53,31 @@ def urlSchemes (query : String) : List String :=
     | some (k, v) => if k == "scheme".toList then (splitOnChar ',' v).map String.ofList else []
     | none => []
 
+/-- the `match (scheme, authority, path, query, fragment)` of `Capability::from_str` -/
+def classifyCapability (s : String) (u : UriParts) : Capability :=
+  let plain := u.authority.isNone && u.query.isNone && u.fragment.isNone && u.scheme == "urn"
+  if plain && u.path == "ietf:params:netconf:base:1.0" then .base10
+  else if plain && u.path == "ietf:params:netconf:base:1.1" then .base11
+  else if plain && u.path == "ietf:params:netconf:capability:writable-running:1.0" then .writableRunning
+  else if plain && u.path == "ietf:params:netconf:capability:candidate:1.0" then .candidate
+  else if plain && u.path == "ietf:params:netconf:capability:confirmed-commit:1.0" then .confirmedCommit10
+  else if plain && u.path == "ietf:params:netconf:capability:confirmed-commit:1.1" then .confirmedCommit11
+  else if plain && u.path == "ietf:params:netconf:capability:rollback-on-error:1.0" then .rollbackOnError
+  else if plain && u.path == "ietf:params:netconf:capability:validate:1.0" then .validate10
+  else if plain && u.path == "ietf:params:netconf:capability:validate:1.1" then .validate11
+  else if plain && u.path == "ietf:params:netconf:capability:startup:1.0" then .startup
+  else if u.scheme == "urn" && u.authority.isNone && u.fragment.isNone
+      && u.path == "ietf:params:netconf:capability:url:1.0" && u.query.isSome then
+    .url (urlSchemes (u.query.getD ""))
+  else if plain && u.path == "ietf:params:netconf:capability:xpath:1.0" then .xpath
+  else if u.scheme == "http" && u.authority == some "xml.juniper.net" && u.path == "/netconf/junos/1.0"
+      && u.query.isNone && u.fragment.isNone then .junos
+  else .unknown s
+
 def parseCapability (o : UriOracle) (s : String) : Except Err Capability :=
   match o s with
   | none => .error .parse
-  | some u =>
-    let plain := u.authority.isNone && u.query.isNone && u.fragment.isNone && u.scheme == "urn"
-    if plain && u.path == "ietf:params:netconf:base:1.0" then .ok .base10
-    else if plain && u.path == "ietf:params:netconf:base:1.1" then .ok .base11
-    else if plain && u.path == "ietf:params:netconf:capability:writable-running:1.0" then .ok .writableRunning
-    else if plain && u.path == "ietf:params:netconf:capability:candidate:1.0" then .ok .candidate
-    else if plain && u.path == "ietf:params:netconf:capability:confirmed-commit:1.0" then .ok .confirmedCommit10
-    else if plain && u.path == "ietf:params:netconf:capability:confirmed-commit:1.1" then .ok .confirmedCommit11
-    else if plain && u.path == "ietf:params:netconf:capability:rollback-on-error:1.0" then .ok .rollbackOnError
-    else if plain && u.path == "ietf:params:netconf:capability:validate:1.0" then .ok .validate10
-    else if plain && u.path == "ietf:params:netconf:capability:validate:1.1" then .ok .validate11
-    else if plain && u.path == "ietf:params:netconf:capability:startup:1.0" then .ok .startup
-    else if u.scheme == "urn" && u.authority.isNone && u.fragment.isNone
-        && u.path == "ietf:params:netconf:capability:url:1.0" && u.query.isSome then
-      .ok (.url (urlSchemes (u.query.getD "")))
-    else if plain && u.path == "ietf:params:netconf:capability:xpath:1.0" then .ok .xpath
-    else if u.scheme == "http" && u.authority == some "xml.juniper.net" && u.path == "/netconf/junos/1.0"
-        && u.query.isNone && u.fragment.isNone then .ok .junos
-    else .ok (.unknown s)
+  | some u => .ok (classifyCapability s u)
 
 /-- `Capabilities::read_xml` (HashSet insert = list append; consumers only test membership) -/
 def capsLoop (o : UriOracle) : (fuel : Nat) → (endRaw : String) → (acc : List Capability) → List Ev → Except Err (List Capability × List Ev)
